@@ -507,3 +507,34 @@ Lemma sups_ok_steane : sups_ok steane = true. Proof. vm_compute. reflexivity. Qe
 Lemma sups_ok_color5 : sups_ok color5 = true. Proof. vm_compute. reflexivity. Qed.
 Lemma exps_safe_steane : exps_safe (e_exps steane) = true. Proof. vm_compute. reflexivity. Qed.
 Lemma exps_safe_color5 : exps_safe (e_exps color5) = true. Proof. vm_compute. reflexivity. Qed.
+
+(* ================================================================== 5. non-vacuity witnesses *)
+Ltac nodup_tac := repeat (constructor; [let HH := fresh "HH" in cbn [In]; intro HH; repeat (destruct HH as [HH|HH]; [discriminate HH|]); exact HH|]); constructor.
+Lemma gate_prog_example :
+  Forall gate_instr [mkI "H" 0 true (map (fun q => [q]) [0; 2]); mkI "S" 1 true (map (fun q => [q]) [1]);
+                     mkI "CX" 2 true (map (fun ab => [fst ab; snd ab]) [(0, 1)])].
+Proof.
+  constructor; [|constructor; [|constructor; [|constructor]]].
+  - apply gate_1q; [cbn; tauto | discriminate | nodup_tac].
+  - apply gate_1q; [cbn; tauto | discriminate | nodup_tac].
+  - apply gate_2q; [cbn; tauto | discriminate | cbn [flat_map fst snd app]; nodup_tac].
+Qed.
+Definition example_tail : list instr :=
+  [mkI "M" 0 true [[0]; [1]; [2]]; mkI "DETECTOR" 1 true [[-1]]; mkI "DETECTOR" 2 true [[-3]; [-2]];
+   mkI "OBSERVABLE_INCLUDE" 3 true [[-2]]]%string.
+Lemma tail_example :
+  forallb wf_instr example_tail = true /\ all_some (lresolve [] example_tail) /\
+  presolve [] (transversal steane example_tail) =
+    [("DETECTOR"%string, 1, map Some [14; 15; 16; 17]); ("DETECTOR"%string, 1, map Some [15; 16; 18; 19]);
+     ("DETECTOR"%string, 1, map Some [16; 17; 18; 20]);
+     ("DETECTOR"%string, 2, map Some [0; 1; 2; 3; 7; 8; 9; 10]); ("DETECTOR"%string, 2, map Some [1; 2; 4; 5; 8; 9; 11; 12]);
+     ("DETECTOR"%string, 2, map Some [2; 3; 4; 6; 9; 10; 11; 13]);
+     ("OBSERVABLE_INCLUDE"%string, 3, map Some [7; 8; 12])].
+Proof.
+  split; [vm_compute; reflexivity|]. split; [|vm_compute; reflexivity].
+  intros a Ha o Ho. vm_compute in Ha.
+  repeat (destruct Ha as [Ha|Ha]; [subst a; cbn [snd In] in Ho; repeat (destruct Ho as [Ho|Ho]; [subst o; discriminate|]); destruct Ho|]).
+  destruct Ha.
+Qed.
+Lemma premises_consistent : forall e, PhysicsPremises e (fun _ _ => True) True (fun _ _ _ _ => True).
+Proof. intro e. unfold PhysicsPremises. repeat split. Qed.
